@@ -25,7 +25,7 @@ func TestMain(m *testing.M) {
 	vstat.Main(m.Run)
 }
 
-var statuses = []int{200, 200, 201, 404, 500, 502, 502, 503, 504}
+var statuses = []int{200, 200, 201, 404, 500, 502, 502, 503, 504, 599, 600, 999}
 
 func ms(d time.Duration) int64 {
 	m := int64(d / time.Millisecond)
@@ -40,7 +40,7 @@ const never = time.Duration(-1 << 62)
 func runCase(t *rapid.T, e node) {
 	FD := rapid.SampledFrom([]time.Duration{500 * time.Millisecond, time.Second, 2 * time.Second, 5 * time.Second}).Draw(t, "fallback")
 	R := rapid.SampledFrom([]time.Duration{500 * time.Millisecond, time.Second, 2 * time.Second, 5 * time.Second}).Draw(t, "recovery")
-	P := rapid.SampledFrom([]time.Duration{time.Millisecond, 100 * time.Millisecond, 500 * time.Millisecond, time.Second, 2 * time.Second}).Draw(t, "checkPeriod")
+	P := rapid.SampledFrom([]time.Duration{time.Millisecond, 100 * time.Millisecond, 500 * time.Millisecond, time.Second, 2 * time.Second, 0, 0, 7 * time.Millisecond, -time.Millisecond}).Draw(t, "checkPeriod") // zero / negative: "evaluate at every completion"
 	phase := time.Duration(rapid.Int64Range(0, int64(time.Second)-1).Draw(t, "phase"))
 	src := e.src(false)
 	cbh.BlockEffects = rapid.IntRange(0, 2).Draw(t, "hangingSideEffects") == 0 // webhooks that never return
